@@ -211,7 +211,7 @@ func (d *mapDecoder) DecodePath(ctx *RuntimeContext, cursor, depth int64) ([][]b
 			return nil, 0, err
 		}
 		cursor += 4
-		return [][]byte{nullbytes}, cursor, nil
+		return nil, cursor, nil
 	case '{':
 	default:
 		return nil, 0, errors.ErrExpected("{ character for map value", cursor)
@@ -243,10 +243,12 @@ func (d *mapDecoder) DecodePath(ctx *RuntimeContext, cursor, depth int64) ([][]b
 			return nil, 0, errors.ErrExpected("colon after object key", cursor)
 		}
 		cursor++
-		child, found, err := ctx.Option.Path.Field(string(key))
+		node := ctx.Option.Path.node
+		child, found, err := node.Field(string(key))
 		if err != nil {
 			return nil, 0, err
 		}
+		valueStart := cursor
 		if found {
 			if child != nil {
 				oldPath := ctx.Option.Path.node
@@ -273,6 +275,14 @@ func (d *mapDecoder) DecodePath(ctx *RuntimeContext, cursor, depth int64) ([][]b
 				return nil, 0, err
 			}
 			cursor = c
+		}
+		if node.recursive() {
+			// recursive descent: after the member itself, whatever matches inside its value
+			paths, _, err := d.valueDecoder.DecodePath(ctx, valueStart, depth)
+			if err != nil {
+				return nil, 0, err
+			}
+			ret = append(ret, paths...)
 		}
 		cursor = skipWhiteSpace(buf, cursor)
 		if buf[cursor] == '}' {
